@@ -1,6 +1,6 @@
 (* C07 - A verifying history proof cannot hide, reorder, invent or misdate versions.
    Proved (Default mode, complete history): an accepted proof yields exactly the true account, newest
-   first.  Same setting as C06 plus: the tree holds the fresh leaf of every version 1..n. *)
+   first.  Same setting as C06 (without its premise on stale leaves) plus: the tree holds the fresh leaf of every version 1..n. *)
 From Coq Require Import List Bool NArith.
 From Akd Require Import NodeLabel NodeLabelFacts Hashing Tree TreeFacts Binding Directory Verify DirSound.
 Import ListNotations.
@@ -17,7 +17,6 @@ Theorem C07_complete_history_sound :
   (forall v, Len64 (val_of v)) -> (forall v, ep_of v < 2 ^ 64) ->
   (forall y v, In y (leaves t) -> lf_label y = nlabel_of true v ->
      1 <= v /\ v <= n /\ lf_value y = fresh_value cfg ck (nlabel_of true v) v (val_of v) /\ lf_epoch y = ep_of v) ->
-  (forall v, 1 <= v -> v < n -> In (nlabel_of false v) (map lf_label (leaves t))) ->
   (forall v, Len64 (c_commitment_nonce cfg ck (nl_to_bytes (nlabel_of true v)) v (val_of v))) ->
   (forall v, 1 <= v -> v <= n -> In (nlabel_of true v) (map lf_label (leaves t))) ->
   forall (E : N) (p : history_proof) (rs : list verify_result), hp_ok p ->
@@ -40,7 +39,6 @@ Theorem C07_entries_true :
   (forall v, Len64 (val_of v)) -> (forall v, ep_of v < 2 ^ 64) ->
   (forall y v, In y (leaves t) -> lf_label y = nlabel_of true v ->
      1 <= v /\ v <= n /\ lf_value y = fresh_value cfg ck (nlabel_of true v) v (val_of v) /\ lf_epoch y = ep_of v) ->
-  (forall v, 1 <= v -> v < n -> In (nlabel_of false v) (map lf_label (leaves t))) ->
   (forall v, Len64 (c_commitment_nonce cfg ck (nl_to_bytes (nlabel_of true v)) v (val_of v))) ->
   forall us prev rs, Forall up_ok us ->
   verify_updates cfg vrf_check pk (root_hash cfg true t) l false prev us = Some rs ->
@@ -63,7 +61,6 @@ Theorem C07_recent_history_sound :
   (forall v, Len64 (val_of v)) -> (forall v, ep_of v < 2 ^ 64) ->
   (forall y v, In y (leaves t) -> lf_label y = nlabel_of true v ->
      1 <= v /\ v <= n /\ lf_value y = fresh_value cfg ck (nlabel_of true v) v (val_of v) /\ lf_epoch y = ep_of v) ->
-  (forall v, 1 <= v -> v < n -> In (nlabel_of false v) (map lf_label (leaves t))) ->
   (forall v, Len64 (c_commitment_nonce cfg ck (nl_to_bytes (nlabel_of true v)) v (val_of v))) ->
   (forall v, 1 <= v -> v <= n -> In (nlabel_of true v) (map lf_label (leaves t))) ->
   forall (E : N) (p : history_proof) (rs : list verify_result) (r : N), hp_ok p ->
@@ -91,12 +88,12 @@ Theorem C07_complete_history_sound_allow_missing :
   (forall v, Len64 (val_of v)) -> (forall v, ep_of v < 2 ^ 64) ->
   (forall y v, In y (leaves t) -> lf_label y = nlabel_of true v ->
      1 <= v /\ v <= n /\ lf_value y = fresh_value cfg ck (nlabel_of true v) v (val_of v) /\ lf_epoch y = ep_of v) ->
-  (forall v, 1 <= v -> v < n -> In (nlabel_of false v) (map lf_label (leaves t))) ->
   (forall v, Len64 (c_commitment_nonce cfg ck (nl_to_bytes (nlabel_of true v)) v (val_of v))) ->
   (forall v, 1 <= v -> v <= n -> In (nlabel_of true v) (map lf_label (leaves t))) ->
   (forall y v, In y (leaves t) -> lf_label y = nlabel_of false v ->
      lf_value y = c_stale_value cfg /\ lf_epoch y = ep_of (v + 1)) ->
   D32 (c_stale_value cfg) ->
+  (forall y, In y (leaves t) -> lf_epoch y < 2 ^ 64) ->
   forall (E : N) (p : history_proof) (rs : list verify_result), hp_ok2 p ->
   1 <= n -> n <= E -> E < 2 ^ 64 ->
   key_history_verify cfg vrf_check pk (root_hash cfg true t) E l p HComplete true = Some rs ->
@@ -115,12 +112,12 @@ Theorem C07_recent_history_sound_allow_missing :
   (forall v, Len64 (val_of v)) -> (forall v, ep_of v < 2 ^ 64) ->
   (forall y v, In y (leaves t) -> lf_label y = nlabel_of true v ->
      1 <= v /\ v <= n /\ lf_value y = fresh_value cfg ck (nlabel_of true v) v (val_of v) /\ lf_epoch y = ep_of v) ->
-  (forall v, 1 <= v -> v < n -> In (nlabel_of false v) (map lf_label (leaves t))) ->
   (forall v, Len64 (c_commitment_nonce cfg ck (nl_to_bytes (nlabel_of true v)) v (val_of v))) ->
   (forall v, 1 <= v -> v <= n -> In (nlabel_of true v) (map lf_label (leaves t))) ->
   (forall y v, In y (leaves t) -> lf_label y = nlabel_of false v ->
      lf_value y = c_stale_value cfg /\ lf_epoch y = ep_of (v + 1)) ->
   D32 (c_stale_value cfg) ->
+  (forall y, In y (leaves t) -> lf_epoch y < 2 ^ 64) ->
   forall (E : N) (p : history_proof) (rs : list verify_result) (r : N), hp_ok2 p ->
   1 <= n -> n <= E -> E < 2 ^ 64 ->
   key_history_verify cfg vrf_check pk (root_hash cfg true t) E l p (HMostRecent r) true = Some rs ->
@@ -142,3 +139,30 @@ Theorem C07_stale_value_is_digest : forall (H : bytes -> bytes), (forall x, leng
   forall domain, D32 (c_stale_value (whatsapp H)) /\ D32 (c_stale_value (experimental H domain)).
 Proof. exact stale_value_digest. Qed.
 Print Assumptions C07_stale_value_is_digest.
+
+(* The property's second sentence: "If the tree itself fails to retire a superseded version in the
+   very epoch of its replacement, history verification for that label fails."  As a theorem, without
+   ANY premise on the stale leaves: if a complete history verifies in Default mode, then for every
+   version v >= 2 the tree holds the stale leaf of v-1, with the stale value, stamped with the epoch
+   of v.  (Contrapositive: missing or late stale marker => verification fails, or a collision.) *)
+Theorem C07_late_or_missing_stale_marker_fails :
+  forall (cfg : config) (Bad : Prop), Binding cfg Bad ->
+  forall (vrf_check : bytes -> bytes -> bytes -> option bytes) (pk ck l : bytes) (t : tree),
+  tree_ok t -> wf_root t = true ->
+  forall nlabel_of : bool -> N -> nlabel,
+  (forall f v, llen (nlabel_of f v) = 256 /\ WF (nlabel_of f v) /\ LW (nlabel_of f v)) ->
+  (forall proof f v out, vrf_check pk proof (label_input_hash cfg l f v) = Some out -> NL out 256 = nlabel_of f v) ->
+  forall (n : N) (val_of : N -> bytes) (ep_of : N -> N),
+  (forall v, Len64 (val_of v)) -> (forall v, ep_of v < 2 ^ 64) ->
+  (forall y v, In y (leaves t) -> lf_label y = nlabel_of true v ->
+     1 <= v /\ v <= n /\ lf_value y = fresh_value cfg ck (nlabel_of true v) v (val_of v) /\ lf_epoch y = ep_of v) ->
+  (forall v, Len64 (c_commitment_nonce cfg ck (nl_to_bytes (nlabel_of true v)) v (val_of v))) ->
+  (forall v, 1 <= v -> v <= n -> In (nlabel_of true v) (map lf_label (leaves t))) ->
+  D32 (c_stale_value cfg) ->
+  (forall y, In y (leaves t) -> lf_epoch y < 2 ^ 64) ->
+  forall (E : N) (p : history_proof) (rs : list verify_result), hp_ok2 p ->
+  1 <= n -> n <= E -> E < 2 ^ 64 ->
+  key_history_verify cfg vrf_check pk (root_hash cfg true t) E l p HComplete false = Some rs ->
+  (forall v, 2 <= v -> v <= n -> In (LF (nlabel_of false (v - 1)) (c_stale_value cfg) (ep_of v)) (leaves t)) \/ Bad.
+Proof. exact history_needs_timely_stale. Qed.
+Print Assumptions C07_late_or_missing_stale_marker_fails.
